@@ -958,6 +958,10 @@ class Frame:
             newv = spec.havoc(self, name, old) if spec.havoc else default_havoc(name, old)
             if newv is not None:
                 self.env.vars[name] = newv
+            elif not spec.havoc and name in assigned:
+                # no description of the value at an arbitrary iteration (None or unbound before the loop): poisoned, like a variable
+                # outside the frame
+                self.env.vars[name] = LoopCarried(name, getattr(spec, "name", "?"))
 
     def iterator_for(self, st, it, spec):
         """for-loop over a stateful iterator (generator, zip of generators, ...).  Without a loop contract the iterator is pulled item by item
